@@ -111,6 +111,9 @@ struct Engine {
 	virtual void on_access(int task, const void *addr, size_t n, bool write, bool atomic) {}
 	virtual void on_rmw(int task, const void *addr, size_t n) {} // after a successful atomic read-modify-write by code under test
 	virtual bool panic_is_stop(const char *msg) { return false; } // documented precondition stop?
+	// SIGSEGV at addr while the run is active (signal context): 0 = not the engine's (a crash of the code under test),
+	// 1 = the engine made the page accessible, retry the access, 2 = give up on this run without a verdict (resource budget)
+	virtual int on_fault(void *addr) { return 0; }
 	virtual const char *op_name(int kind) = 0;
 	virtual int op_kind(const std::string &name) = 0;
 	virtual std::vector<Op> simplify(const Op &op) { return {}; }
